@@ -29,6 +29,21 @@ CLAIMED = {
  "C08": ("table-key provenance (normalised media types), dominance (header before body), must-pass-through (HEAD/204, JSON fallback, realm marker) on SSA of Context.Respond, errorResp and the basic authenticators",
          "Static: decides producer selection by normalised format, status provenance, no body for HEAD/204, error-responder wiring and the WWW-Authenticate realm marker for every path; does not decide producer output.",
          "Trusts go/types+go/ssa.", "DESIGN.md §2 C08"),
+ "C10": ("value provenance of the URL text (join-then-escape-substitute), must-pass-through on key-presence precedence, loop-shape rules for the scheme scan, error discipline on SSA of request.buildHTTP and Runtime",
+         "Static: decides escape-at-substitution after path.Join, encoded query with caller-over-static precedence by key presence, whole-list https scan, scheme/host provenance; injectivity of escaping and value-level outcomes are not decided.",
+         "Trusts go/types+go/ssa; url.PathEscape, path.Join, url.Values.Encode as documented.", "DESIGN.md §2 C10"),
+ "C11": ("read-length typestate on io.Reader buffers, closure/captured-variable provenance for the GetBody override, pipe/writer/boundary pairing, loop-iteration rules for fields and files on SSA of request.buildHTTP",
+         "Static: decides buf[:n] discipline, rest-of-file preservation, override-whenever-foreign-body, rebinding before bytes are shown, header/boundary pairing and that no field/file iteration is skipped; byte equality on the wire is not decided.",
+         "Trusts go/types+go/ssa; mime/multipart, io.Pipe as documented.", "DESIGN.md §2 C11"),
+ "C12": ("acquire/release pairing on all exits with defer awareness (cancel functions, response body, pipe read end, files, pipe writer), error-to-CloseWithError propagation, who-may-spawn over the call graph on SSA of Submit, buildHTTP and the keep-alive reader",
+         "Static: decides that every exit releases what the call holds and that failures of the upload reach the pipe as errors; wall-clock deadlines and server behaviour are not decided.",
+         "Trusts go/types+go/ssa; net/http closes request bodies it is handed.", "DESIGN.md §2 C12"),
+ "C13": ("lookup-key and value provenance for consumer selection, who-may-write on http.Response and on the shared Runtime over the call graph, sync.Once initialisation shape",
+         "Static: decides consumer-by-parsed-media-type with catch-all fallback, transparent adapter, per-operation precedence and that the only shared write is the Once-guarded fresh client; response correlation under concurrency is net/http's.",
+         "Trusts go/types+go/ssa and the VTA call graph.", "DESIGN.md §2 C13"),
+ "C14": ("principal/argument provenance, must-pass-through for not-applicable and bearer precedence (with phi-edge reasoning), sibling event-sequence agreement, constant/encoder identity on the client writers",
+         "Static: decides callback-only principals, exact credential hand-over, header>query>form precedence, plain/Ctx agreement, shared header constant and StdEncoding, default-credential gating; string round-trip equality is not decided.",
+         "Trusts go/types+go/ssa; net/http BasicAuth/FormValue as documented.", "DESIGN.md §2 C14"),
  "C17": ("typestate (open/closed) and delegation-target analysis on SSA of HasBody and peekingReader, nil-receiver contradiction rule",
          "Static: decides single-buffer delegation, non-consuming probe, fast-path conditions, close-once state machine and nil-receiver safety on all paths; byte sequences under chunking are bufio's and not decided.",
          "Trusts go/types+go/ssa; bufio.Reader as documented.", "DESIGN.md §2 C17"),
